@@ -68,7 +68,7 @@ class WrongDeriv(Problem):
         return self._mat(H)
 
 
-def observe(flags, errs, fmt, dup=False):
+def observe(flags, errs, fmt, dup=False, reuse=False):
     calls = []
     orig = dc_mod.deriv_check
 
@@ -78,10 +78,17 @@ def observe(flags, errs, fmt, dup=False):
 
     dc_mod.deriv_check = counting
     try:
-        prob = WrongDeriv(errs, fmt, dup)
+        prob = WrongDeriv([] if reuse else errs, fmt, dup)
         params = Params(deriv_check=FLAGS[flags], iteration_limit=0, display_interval=1e9)
         try:
-            Solver(prob, params).solve(np.array([0.5, -0.25]), np.array([1.0, -2.0]))
+            solver = Solver(prob, params)
+            if reuse:
+                # the same solver object first solves from another start with derivatives that are correct there; the check
+                # belongs to every solve, not to the solver object
+                solver.solve(np.array([-1.0, 0.75]), np.array([0.5, 1.0]))
+                del calls[:]
+                prob.errs = errs
+            solver.solve(np.array([0.5, -0.25]), np.array([1.0, -2.0]))
             return {"kind": "pass", "ncalls": len(calls)}
         except DerivError as e:
             st = ORDER[flags][len(calls) - 1] if 0 < len(calls) <= len(ORDER[flags]) else "?"
@@ -121,10 +128,10 @@ def main():
             if v["kind"] == "running":
                 continue
             k += 1
-            if not chk.thorough and k % 4:
+            if not chk.thorough and ((k * 2654435761 >> 8) + chk.seed) % 4:      # scattered sample of the case space
                 continue
             errs = [dict(e) for e in sorted(st["cs"]["errs"], key=lambda e: (e["which"], e["i"], e["j"]))] if st["cs"]["errs"] else []
-            obs = observe(st["cs"]["flags"], errs, fmts[k % 3], dup=(k % 8 < 4))
+            obs = observe(st["cs"]["flags"], errs, fmts[k % 3], dup=(k % 8 < 4), reuse=bool((k // 3) % 2))
             chk.case((st["cs"]["flags"], tuple((e["which"], e["i"], e["j"], e["mag"]) for e in errs)))
             exp = {"kind": v["kind"]}
             if v["kind"] == "error":
